@@ -576,11 +576,14 @@ class Ms5:
     def gen(self, rng, small=False):
         p = {"kind": "ms5", "tmax": rng.choice([2, 3, 4, 6]), "ens": rng.choice(["T24L16", "ms5_xsf_T24L16", "X-b", "E250"]),
              "qc": rng.choice(["dd", "ud", "du", "uu"]), "data_seed": rng.getrandbits(32)}
+        big = (not small) and rng.random() < 0.12          # files of several hundred kB: longer than any read-ahead buffer or block size
+        if big:
+            p["tmax"] = rng.choice([24, 32])
         R = rng.choice([1, 1, 2, 2, 3])
         ks = sorted(rng.sample(REPNUMS, R))
         reps = []
         for k in ks:
-            nrec = rng.randint(5, 8 if small else 40)
+            nrec = rng.randint(5, 8 if small else 40) if not big else rng.randint(20, 40)
             mode = rng.choice(["contig", "stride", "irregular"])
             first = rng.randint(0, 30)
             if mode == "contig":
